@@ -84,7 +84,15 @@ type TesterConn struct {
 	l *slog.Logger
 }
 
+// testerConnsOpen counts TesterConns created and not yet closed (verification aid: a stopped node must have
+// closed every socket it opened, including ones it never read from).
+var testerConnsOpen atomic.Int64
+
+// TesterConnsOpen reports how many TesterConns exist that have not been closed.
+func TesterConnsOpen() int64 { return testerConnsOpen.Load() }
+
 func NewListener(l *slog.Logger, s Settings) (Conn, error) {
+	testerConnsOpen.Add(1)
 	c := &TesterConn{
 		RxPackets: make(chan *Packet, 10),
 		TxPackets: make(chan *Packet, 10),
@@ -220,6 +228,7 @@ func (u *TesterConn) Rebind() error {
 func (u *TesterConn) Close() error {
 	u.closeOnce.Do(func() {
 		close(u.done)
+		testerConnsOpen.Add(-1)
 	})
 	return nil
 }
